@@ -3,6 +3,7 @@ package c19
 import (
 	"bytes"
 	"encoding/xml"
+	"reflect"
 
 	"mellium.im/xmpp/verifharness/core"
 )
@@ -95,4 +96,65 @@ func firstGoodEncoding(v any) []byte {
 		}
 	}
 	return nil
+}
+
+// overwriteLaw.  Some hand-written decoders build the value (or some of its
+// fields) from a freshly decoded temporary and assign it unconditionally
+// (entry.wholesale, read off each UnmarshalXML).  For those fields the result
+// of a decode is a function of the document alone: decoding B into a target
+// that holds A gives what a fresh decode of B gives, and a copy of the target
+// taken before still holds A afterwards (nothing of B is written through
+// pointers shared with the copy).
+//
+// Not judged: fields a decoder only assigns when the attribute/element is
+// present (encoding/xml's own convention for structs, which every tag-decoded
+// type follows: absent leaves untouched, slices append, non-nil pointers and
+// maps are reused - as in encoding/json); byte-slice buffers in the copy (a
+// decoder may reuse the buffer, crypto.Key says so); maps.
+func overwriteLaw(c *core.Case, e *entry, encA, encB []byte) {
+	if len(e.wholesale) == 0 || e.fresh == nil || len(bytes.TrimSpace(encA)) == 0 || len(bytes.TrimSpace(encB)) == 0 {
+		return
+	}
+	typ := e.name
+	only := map[string]bool{}
+	for _, f := range e.wholesale {
+		only[f] = true
+	}
+	mk := func(skipBytes bool) *cmp {
+		cm := &cmp{skipBytes: skipBytes}
+		if !only["*"] {
+			cm.onlyTop = only
+		}
+		return cm
+	}
+	target, freshA, freshB := e.fresh(), e.fresh(), e.fresh()
+	var e1, e2, e3, e4 error
+	if guard(c, typ, "UnmarshalXML(overwrite law)", func() {
+		e1 = xml.Unmarshal(encA, target)
+		e3 = xml.Unmarshal(encA, freshA)
+		e4 = xml.Unmarshal(encB, freshB)
+	}) || e1 != nil || e3 != nil || e4 != nil {
+		return
+	}
+	// a by-value copy of the target, as a caller that keeps the previous result has
+	cp := reflect.New(reflect.TypeOf(target).Elem())
+	cp.Elem().Set(reflect.ValueOf(target).Elem())
+	if guard(c, typ, "UnmarshalXML(overwrite law, second document)", func() { e2 = xml.Unmarshal(encB, target) }) || e2 != nil {
+		return
+	}
+	c.Count("overwrite_law_checked", 1)
+	c.Count("overwrite:"+typ, 1)
+	var d *difference
+	if e.equal != nil && only["*"] {
+		d = e.equal(freshB, target, mk(false))
+	} else {
+		d = mk(false).diffValues(freshB, target)
+	}
+	if d != nil {
+		violate(c, "codec:I:"+typ+":decode-keeps-previous:"+d.Field, "decoding B into a value that held A differs from a fresh decode of B in a field the decoder assigns unconditionally: %s\nA: %s\nB: %s", d.Detail, qb(encA), qb(encB))
+		return
+	}
+	if d := mk(true).diffValues(freshA, cp.Interface()); d != nil {
+		violate(c, "codec:I:"+typ+":decode-writes-through-copy:"+d.Field, "a copy of the value taken before decoding B into it no longer holds A: %s\nA: %s\nB: %s", d.Detail, qb(encA), qb(encB))
+	}
 }
